@@ -966,6 +966,11 @@ def check_C17(rep, fl):
     check_dropsets(rep, fl)
     check_metrics_core(rep, fl)
     check_metric_sites(rep, fl)
+    # "counters restart from zero at clear()": every served clear request reaches metrics.clear() (no `nothing to
+    # clear` shortcut in the handler or in clear() itself), and clear() waits for it
+    import props_life
+    import props_store
+    props_store.keep_sites(rep, fl, props_life.check_clear, ("drain + policy/store/metrics", "always requests", "waits for the processor", "clear arm"))
     # "with metrics enabled": the flag creates the Op metrics and hands the same handle to the policy, and the
     # setters carry the flag
     import props_panic
